@@ -367,6 +367,11 @@ def build_configs(tier, seed):
     tagged('tri2', 'tri2', 2, 5, ks=(1,) if quick else (1, 2), pts=(None, renumbered('tri2', (2, 0, 3, 1)), renumbered('tri2', (3, 1, 0, 2))))
     if not quick:
         tagged('tri3fan', 'tri3fan', 3, 7)
+    else:
+        # several passes in ONE call (tags are carried pass by pass)
+        add('line3perm/k=2', mesh='line3', k=2, pt=topo('line3perm'), sub={'s0': [0], 's12': [1, 2]}, bnd={'b': [0, 3]})
+        add('line3perm/k=3', mesh='line3', k=3, pt=topo('line3perm'), sub={'s1': [1]})
+        add('tri2/k=2', mesh='tri2', k=2, sub={'s0': [0], 's1': [1]}, bnd={'b': [0, 2]}, timeout=900)
     # triangles with per-cell vertex sorting switched off (what Mesh.oriented() returns)
     subs, fsubs = tag_sets(2, 5, rng, quick)
     for pi, perm in enumerate([(1, 3, 0, 2), (2, 0, 3, 1)] + ([] if quick else [(3, 2, 1, 0), (0, 2, 1, 3)])):
